@@ -172,7 +172,7 @@ def d1_n1_samplers(ctx):
             if k == 0:
                 _lost(ctx, "C19-N1", site, f"row count of sample_AABB(mode='{mode}') is not derivable", "")
             nn += k
-    _floor(ctx, "C19-D1", "C19-D1 obligations", nd, 18)
+    _floor(ctx, "C19-D1", "C19-D1 obligations", nd, 22)
     _floor(ctx, "C19-N1", "C19-N1 obligations", nn, 12)
 
 
@@ -598,7 +598,7 @@ def s1_as_surface(ctx):
                   f"`{au.src(sub)}` indexes a linspace of `{cnt}` samples with a loop of `{trip}` iterations",
                   f"for {trip} > {cnt} the index runs past the samples, for {trip} < {cnt} the patch is not covered up to parameter 1",
                   note=f"{au.src(sub)}: loop covers the linspace")
-    _floor(ctx, "C19-S1", "C19-S1 obligations", n, 12)
+    _floor(ctx, "C19-S1", "C19-S1 obligations", n, 16)
 
 
 # ----------------------------------------------------------------------- C19-F1
